@@ -96,7 +96,7 @@ func TestVerifC10Merkle(t *testing.T) {
 			leaf := append([]byte{}, items[i]...)
 			rh := append([]byte{}, rootHash...)
 			kind := ""
-			switch r.Intn(20) {
+			switch r.Intn(22) {
 			case 0:
 				kind = "genuine"
 			case 1:
@@ -186,6 +186,27 @@ func TestVerifC10Merkle(t *testing.T) {
 					j := r.Intn(len(prev))
 					p = cloneProof(pp[j])
 					leaf = append([]byte{}, prev[j]...)
+				}
+			case 19, 20:
+				// nothing can be recomputed from the proof, and the root offered is empty / nil
+				kind = "empty-root+broken-path"
+				rh = []byte{}
+				if r.Bool() {
+					rh = nil
+				}
+				switch r.Intn(4) {
+				case 0:
+					p.Index = p.Total + int64(r.Intn(3))
+				case 1:
+					if len(p.Aunts) > 0 {
+						p.Aunts = p.Aunts[:len(p.Aunts)-1]
+					} else {
+						p.Aunts = [][]byte{leafHash(leaf)}
+					}
+				case 2:
+					p.Aunts = append(p.Aunts, leafHash(leaf))
+				default:
+					p.Total = 0
 				}
 			case 18:
 				kind = "index+total-shift" // same path claimed for a bigger tree
